@@ -5,7 +5,8 @@
 Require Import Floats.SpecFloat.
 Require Import List ZArith Bool Arith.
 From Flocq Require Import Core BinarySingleNaN.
-From Dasp Require Import Base.Res Signal.Sig Signal.SigProofs Signal.SigRun Signal.SigRunProofs Signal.SigExamples.
+From Dasp Require Import Base.Res Signal.Sig Signal.SigProofs Signal.SigRun Signal.SigRunProofs Signal.SigExamples
+  Signal.SigNormProofs Signal.SigRunNormProofs Signal.SigNormExamples.
 Import ListNotations.
 Local Open Scope nat_scope.
 
@@ -99,7 +100,40 @@ Proof.
   - intros Ht. exact (proj2 (clip_law F Sm SS FS eqm nch channels of_samples fmap f_add f_mul f_scale f_offset to_signed of_signed ss_ltb ss_neg lt H1 Hi H2 H3 t s n Ht)).
 Qed.
 
+(* a delay that outlasts the run: for EVERY tree t in which a delay of length k > m occurs (at any position p, under any
+   other adaptors), giving that delay any other length k' > m (m + 1, say) changes nothing that m calls of next can
+   observe: the frames, the events (which leaf is pulled when, which closure is called), is_exhausted before and after
+   every call, the pull counters of every leaf, and every sub-signal -- a borrowed base in particular -- stays related
+   in the same way (drel: the same tree up to delays that both outlast what is left of the run).
+   delay(2^32) and delay(usize::MAX) are therefore judged by running delay(m + 1). *)
+Notation trace := (Sig.trace F Sm SS FS eqm nch of_samples fmap f_add f_mul f_scale f_offset to_signed of_signed ss_ltb ss_neg).
+
+Theorem c04_delay_beyond_run : forall (m : nat) (p : path) (t : sig) k k' s,
+  sub_at p t = Some (Delay k s) -> m < k -> m < k' ->
+  let t' := subst_at p t (Delay k' s) in
+  forall n, n <= m ->
+    stream t' n = stream t n /\
+    trace (after n t') = trace (after n t) /\
+    exhausted (after n t') = exhausted (after n t) /\
+    leaf_counts (after n t') = leaf_counts (after n t) /\
+    drel F Sm SS FS (m - n) (after n t) (after n t').
+Proof. exact (delay_clamp_sound F Sm SS FS eqm nch of_samples fmap f_add f_mul f_scale f_offset to_signed of_signed ss_ltb ss_neg). Qed.
+
 End Statement.
+
+(* the normalisation that lets the correspondence run delay(2^32), delay(usize::MAX) ... through the unary-nat model is
+   invisible: for every executable instance OP (the five hand instances and those over the C03 sample model), every list
+   of base trees and every list of ops, running the case whose delay lengths are clamped to [norm_bound ops]
+   (1 + the number of calls of next the ops can make on one signal) yields exactly the observations of the case itself *)
+Theorem c04_run_delay_normalisation_sound : forall (OP : zops) (ts : list ztree) (ops : list zop),
+  let b := norm_bound ops in
+  (let (l, bases) := run_bases OP (map (clamp_tree b) ts) in l ++ run_ops OP bases (map (clamp_op b) ops)) =
+  (let (l, bases) := run_bases OP ts in l ++ run_ops OP bases ops).
+Proof. exact run_ops_norm. Qed.
+
+(* (instantiated at the hand instances this is SigRunNormProofs.run_case_norm_sound : run_case_norm c = run_case c; it is
+   not restated here because the instances themselves mention Flocq's float operations, whose definitions rest on the
+   standard real-number axioms, and this file's theorems are axiom-free) *)
 
 (* the clip law on every two's complement integer format of width b whose signed amplitude is x - off
    (off = 0: i16, i32, ...; off = 2^(b-1): u8, ...), ClipAmp's closure written with integer operations
@@ -119,3 +153,5 @@ Print Assumptions c04_by_ref.
 Print Assumptions c04_compose.
 Print Assumptions c04_clip.
 Print Assumptions c04_clip_int.
+Print Assumptions c04_delay_beyond_run.
+Print Assumptions c04_run_delay_normalisation_sound.
